@@ -3,6 +3,7 @@ import itertools
 import math
 import os
 import random
+import zipfile
 
 from .. import model, runner, tree
 from ..core import JobResult, job_seed
@@ -194,18 +195,37 @@ def run_job(job):
         tree.materialise(root, nodes)
         for k in range(min(2, len(nodes))):
             os.link(os.path.join(root, nodes[k]["path"]), os.path.join(root, "hl%d" % k))
+        # every third job also searches a zip archive: its members are rows like any other (of a member only `size` is modelled;
+        # the independence oracles below apply to every row)
+        frm = "t"
+        members = {}
+        if job.get("archives"):
+            frm = "t archives"
+            with zipfile.ZipFile(os.path.join(root, "pack.zip"), "w") as z:
+                for k, sz in enumerate(rng.sample([0, 1, 7, 9, 10, 100, 704, 1000, 4097], rng.randint(2, 5))):
+                    z.writestr("m%d.txt" % k, b"z" * sz)
+                    members["[t/pack.zip] m%d.txt" % k] = sz
         snap = tree.snapshot(root)
         envs = {}
         for e in snap:
             envs[e.abs] = {"size": e.st.st_size, "hardlinks": e.st.st_nlink, "length(name)": len(e.name), "uid": e.st.st_uid,
                            "name": e.name, "ext": model.ext_of(e.name)}
 
+        for key, sz in members.items():
+            envs[os.path.normpath(os.path.join(w, key))] = {"size": sz}
+
+        def ev(a, env):
+            try:
+                return evaluate(a, env)
+            except KeyError:        # a column that is not modelled for this row (zip member)
+                return None
+
         def run(q, trace=False):
             res.ev()
             return runner.run([q], cwd=w, home=home, trace=trace)
 
         def cells_for(exprtexts, trace=False):
-            q = "path, %s from t into list" % ", ".join(exprtexts)
+            q = "path, %s from %s into list" % (", ".join(exprtexts), frm)
             r = run(q, trace)
             if r.verdict != "ok" or r.rc != 0 or r.err or r.panicked:
                 return q, r, None
@@ -262,12 +282,12 @@ def run_job(job):
                             bad = True
                             break
                         continue
-                    want = evaluate(a, env)
+                    want = ev(a, env)
                     if want is None:
                         continue
                     if not same_float(c, want):
-                        res.viol("`%s` for %s (size %d, hardlinks %d, uid %d) printed %r, IEEE value %r (select list: %s)" % (
-                            t, os.path.basename(pth), env["size"], env["hardlinks"], env["uid"], c, want, texts), ctx)
+                        res.viol("`%s` for %s (size %d, hardlinks %s, uid %s) printed %r, IEEE value %r (select list: %s)" % (
+                            t, os.path.basename(pth), env["size"], env.get("hardlinks"), env.get("uid"), c, want, texts), ctx)
                         bad = True
                         break
                 if bad:
@@ -308,18 +328,18 @@ def run_job(job):
                 continue
             a = rng.choice(with_col)     # a bare literal is text, not an expression value
             t = texts[asts.index(a)]
-            vals = [evaluate(a, envs[p]) for p in table if p in envs]
+            vals = [ev(a, envs[p]) for p in table if p in envs]
             finite = [v for v in vals if v is not None and v == v and abs(v) != float("inf")]
             if finite and len(finite) == len(vals):
                 lit = rng.choice(finite)
                 if lit == int(lit) and abs(lit) < 1e15:
                     op = rng.choice([">", ">=", "<", "<=", "=", "!="])
                     littxt = str(int(lit))
-                    qw = "path from t where %s %s %s into list" % (t, op, littxt)
+                    qw = "path from %s where %s %s %s into list" % (frm, t, op, littxt)
                     rw = run(qw)
                     if rw.verdict == "ok" and rw.rc == 0 and not rw.err:
                         got = set(os.path.normpath(os.path.join(w, x)) for x in rw.rows())
-                        exp = set(p for p in table if p in envs and model.int_cmp(op, evaluate(a, envs[p]), float(int(lit))))
+                        exp = set(p for p in table if p in envs and model.int_cmp(op, ev(a, envs[p]), float(int(lit))))
                         if got != exp:
                             res.viol("`where %s %s %s`: %d entries misclassified against the expression's IEEE value" % (t, op, littxt, len(got ^ exp)),
                                      {"query": qw, "diff": sorted(os.path.basename(x) for x in got ^ exp)[:6]})
@@ -334,6 +354,7 @@ def run_job(job):
                     res.count("text_literal_next_to_columns")
             res.cover("operator_spelling", "words" if words else "symbols")
             res.cover("list_len", n)
+            res.cover("from", frm)
             res.nt("|".join(texts))
             res.sample({"query": q, "row": list(table.values())[0]}, cap=3)
     finally:
@@ -344,7 +365,7 @@ def run_job(job):
 def main(chk):
     quick = chk.tier == "quick"
     n = 640 if quick else 3000
-    jobs = [{"id": "j%d" % i, "seed": job_seed(chk.seed, "C15", i), "queries": 12 if quick else 24} for i in range(n)]
+    jobs = [{"id": "j%d" % i, "seed": job_seed(chk.seed, "C15", i), "queries": 12 if quick else 24, "archives": i % 3 == 1} for i in range(n)]
     if not quick:
         jobs += chk.shard(jobs[:200], "arith", 200)
     chk.run_jobs(jobs, budget_s=300 if quick else 3000)
